@@ -17,6 +17,9 @@ fn cfgs() -> Vec<Entry> {
     c!(v, true,"noalloc",ZD,Stack<5>,dyn Cloneable);
     c!(v, true,"noalloc",X24D,StackN<2, 64>,dyn Cloneable + Send + Sync);
     c!(v, true,"noalloc",W8,Stack<24>,dyn Send);
+    // the zero-capacity backend (the crate's default backend when the alloc feature is off)
+    c!(v, true,"noalloc",W8D,any_vec::mem::Empty,dyn Cloneable);
+    c!(v, true,"noalloc",Q16D,any_vec::mem::Empty,dyn TNone);
     v
 }
 fn main() { anyvec_mc::main_with(cfgs) }
